@@ -447,6 +447,14 @@ def _apply(op, mdg, M, st, mon):
 
     if kind == "add":
         grids = [_mk(s) for s in op["specs"]]
+        if op.get("shuffle") and len(grids) > 1:
+            # insertion order differs from creation (id) order: the listing must sort by
+            # id within a dimension, not by insertion
+            perm = np.random.default_rng(int(op["shuffle"])).permutation(len(grids))
+            if np.all(perm == np.arange(len(grids))):
+                perm = perm[::-1]
+            grids = [grids[k] for k in perm]
+            mon.count("op:add-in-shuffled-order")
         arg = grids[0] if (op.get("single") and len(grids) == 1) else grids
         mdg.add_subdomains(arg)
         M.add_subdomains(grids)
@@ -691,7 +699,8 @@ def _rand_op(rng, with_base):
     sel = int(rng.integers(0, 10 ** 6))
     if k == "add":
         n = int(rng.integers(1, 4))
-        return {"op": "add", "specs": [_spec(rng) for _ in range(n)],
+        return {"op": "add", "shuffle": int(rng.integers(1, 2**31)) if rng.random() < 0.5 else 0,
+                "specs": [_spec(rng) for _ in range(n)],
                 "single": bool(n == 1 and rng.random() < 0.5)}
     if k == "add_dup":
         return {"op": "add_dup", "sel": sel, "spec": _spec(rng),
@@ -731,7 +740,8 @@ def generate(rng, tier, i):
         specs = [_spec(rng) for _ in range(n)]
         if rng.random() < 0.5:               # make codim-3 pairs and 0-d removals likely
             specs += [{"dim": 3, "n": 1}, {"dim": 0, "n": int(rng.integers(1, 4))}]
-        ops.append({"op": "add", "specs": specs, "single": False})
+        ops.append({"op": "add", "specs": specs, "single": False,
+                    "shuffle": int(rng.integers(1, 2**31)) if rng.random() < 0.5 else 0})
     nops = int(rng.integers(3, 16))
     while len(ops) < nops:
         ops.append(_rand_op(rng, with_base))
@@ -759,6 +769,14 @@ def floor(tier):
             {"op": "replace_sd", "sel": 0, "how": "fresh", "ratio": 2},
             {"op": "remove", "sel": 0, "prefer_dim": "max"},
             {"op": "remove", "sel": 0, "prefer_dim": 1},
+        ]},
+        # grids inserted in an order different from their creation (id) order
+        {"base": None, "ops": [
+            {"op": "add", "specs": [s(2), s(2, 2), s(2, 3), s(1), s(1, 2), s(0)],
+             "single": False, "shuffle": 7},
+            {"op": "add_intf", "sel": 0, "swap": False, "sides": 2},
+            {"op": "add", "specs": [s(2, 2), s(2), s(1)], "single": False, "shuffle": 3},
+            {"op": "remove", "sel": 1, "prefer_dim": 2},
         ]},
         # documented rejection of a codimension-3 coupling must not change the container
         {"base": None, "ops": [
